@@ -196,6 +196,19 @@ def run_shard(ctx: ShardCtx) -> ShardResult:
              'tracks': [('video', 1, 'main'), ('audio', 2, 'main')]},
             {'pid': 'p2', 'stream': 'tears', 'start': 8, 'duration': 14.2,
              'tracks': [('video', 1, 'main'), ('audio', 2, 'main')]}], title='Fractional periods')
+        # a stream whose *directory* (accepted as free text by the API; it is part of every URL of its manifests
+        # and the MPD id) is a hostile string. One per shard; '/' and NUL cannot be in a file name
+        from dlv.appenv import FIXTURES
+        from urllib.parse import quote as _q
+        hd_cls, hd = HOSTILE[(ctx.shard + ctx.seed) % len(HOSTILE)]
+        hd = hd.replace('/', ' ')[:60].strip() or 'x'
+        hostile_dir = None
+        try:
+            env.add_stream(hd, title='hostile directory', files={
+                f'hd{ctx.shard}_v7': FIXTURES / 'bbb' / 'bbb_v7.mp4', f'hd{ctx.shard}_a1': FIXTURES / 'bbb' / 'bbb_a1.mp4'})
+            hostile_dir = (hd_cls, hd)
+        except OSError:
+            res.count('hostile_directory.not_a_file_name')
         reach = Reach([
             ('dashlive.server.template_tags', 'xmlSafe'),
             ('dashlive.server.requesthandler.template_context', 'create_template_context'),
@@ -210,6 +223,35 @@ def run_shard(ctx: ShardCtx) -> ShardResult:
                   'tears': ('Tears of Steel', PlayReady.TEST_LA_URL, 'ms3://localhost/marlin/tears')}
         rounds = ctx.scale(10, 120)
         per_round = ctx.scale(60, 150)
+        if hostile_dir is not None:
+            hd_cls, hd = hostile_dir
+            for manifest, modes in ALL_TEMPLATES:
+                for mode in modes:
+                    for extra in ('', '?base=0', '?timeline=1' if manifest in ('hand_made.mpd', 'manifest_a.mpd') else '?abr=0'):
+                        if mode == 'live':
+                            env.clock.set(datetime.datetime(2024, 5, 5, 5, 5, 5, tzinfo=datetime.timezone.utc))
+                        url = f'/dash/{mode}/{_q(hd, safe="")}/{manifest}{extra}'
+                        r = env.get(url, client=rend.client)
+                        res.evaluations += 1
+                        res.count('hostile_directory.requests')
+                        if r.status_code != 200:
+                            res.count(f'hostile_directory.status.{r.status_code}')
+                            continue
+                        case = {'route': 'single', 'stream': hd, 'manifest': manifest, 'mode': mode, 'params': {}, 'loc': 'directory'}
+                        root = check_doc(res, case, r.data, url, 'mpd', 'directory', hd_cls)
+                        if root is not None:
+                            res.count('hostile_directory.documents')
+                            # every template URL must still resolve inside this stream: no stray $identifier$
+                            import re as _re
+                            for el in root.iter(R.Q + 'SegmentTemplate'):
+                                for att in ('media', 'initialization'):
+                                    v = el.get(att) or ''
+                                    ids = set(_re.findall(r'\$([A-Za-z]*)(?:%[^$]*)?\$', v))
+                                    bad = ids - {'RepresentationID', 'Number', 'Time', 'Bandwidth', ''}
+                                    if bad:
+                                        res.violation('hostile-directory-adds-template-identifier',
+                                                      f'{url}: SegmentTemplate@{att}={v[:120]!r} has identifiers {sorted(bad)}',
+                                                      {'case': case, 'hostile': hd_cls})
         for rnd in range(rounds):
             cases = gen_cases(ctx, per_round)
             # ---- pass 1: benign metadata
